@@ -41,16 +41,20 @@ def xcp(fallback=False):
 def probe():
     """Path of the API probe binary (links libxcp/libfs from REPO)."""
     def go():
-        src = os.path.join(VERIF, "probe")
-        # the probe depends on REPO by path; regenerate its manifest when REPO is not /repo
-        man = open(os.path.join(src, "Cargo.toml.in")).read().replace("@REPO@", REPO)
+        import shutil
+        tmpl = os.path.join(VERIF, "probe")
+        src = os.path.join(BUILD, "probe-src")
+        # the probe depends on REPO by path: keep a generated copy of the crate next to the build output
+        os.makedirs(os.path.join(src, "src"), exist_ok=True)
+        for fn in os.listdir(os.path.join(tmpl, "src")):
+            a, b = os.path.join(tmpl, "src", fn), os.path.join(src, "src", fn)
+            if not os.path.exists(b) or open(a).read() != open(b).read():
+                shutil.copy(a, b)
+        man = open(os.path.join(tmpl, "Cargo.toml.in")).read().replace("@REPO@", REPO)
         mp = os.path.join(src, "Cargo.toml")
         if not os.path.exists(mp) or open(mp).read() != man:
             open(mp, "w").write(man)
-        lock = os.path.join(src, "Cargo.lock")
-        if not os.path.exists(lock):
-            import shutil
-            shutil.copy(os.path.join(REPO, "Cargo.lock"), lock)
+        shutil.copy(os.path.join(REPO, "Cargo.lock"), os.path.join(src, "Cargo.lock"))
         target = os.path.join(BUILD, "probe")
         _run(["cargo", "build", "--offline"], src, target)
         return os.path.join(target, "debug", "xcp-probe")
